@@ -49,7 +49,7 @@ pub fn kind_of(name: &str) -> ErrorKind {
 // ----------------------------------------------------------------- script
 
 #[derive(Clone, Debug, PartialEq)]
-pub enum Item { Data(Vec<u8>), Zeros(usize), Fault(ErrorKind), Term }
+pub enum Item { Data(Vec<u8>), Zeros(usize), Fault(ErrorKind), Term, Idle }
 
 pub type Script = Vec<Item>;
 
@@ -72,6 +72,7 @@ pub fn show_script(s: &Script) -> String {
             Item::Zeros(n) => out.push_str(&format!("z{}", n)),
             Item::Fault(k) => { out.push_str("f."); out.push_str(kind_name(*k)); }
             Item::Term => out.push('t'),
+            Item::Idle => out.push('i'),
         }
     }
     out
@@ -86,6 +87,7 @@ pub fn parse_script(s: &str) -> Script {
             "z" => Some(Item::Zeros(r.parse().unwrap_or(0))),
             "f" => Some(Item::Fault(kind_of(r.trim_start_matches('.')))),
             "t" => Some(Item::Term),
+            "i" => Some(Item::Idle),
             _ => None,
         }
     }).collect()
@@ -93,7 +95,7 @@ pub fn parse_script(s: &str) -> Script {
 
 /// Flatten into single events (for the reference framer).
 #[derive(Clone, Copy, Debug, PartialEq)]
-pub enum Flat { B(u8), F(ErrorKind), T }
+pub enum Flat { B(u8), F(ErrorKind), T, I }
 pub fn flatten(s: &Script) -> Vec<Flat> {
     let mut v = vec![];
     for it in s {
@@ -102,6 +104,7 @@ pub fn flatten(s: &Script) -> Vec<Flat> {
             Item::Zeros(n) => v.extend(std::iter::repeat(Flat::B(0)).take(*n)),
             Item::Fault(k) => v.push(Flat::F(*k)),
             Item::Term => v.push(Flat::T),
+            Item::Idle => v.push(Flat::I),
         }
     }
     v
@@ -120,6 +123,8 @@ pub struct ReaderShared {
     /// stream (busy loop); the reader parks and tells the engine
     pub eofs: AtomicUsize,
     pub spinning: tokio::sync::Notify,
+    /// the reader reached an `Idle` item: everything before it has been processed
+    pub idle_reached: tokio::sync::Notify,
 }
 pub const EOF_SPIN: usize = 64;
 
@@ -196,6 +201,12 @@ impl AsyncRead for ScriptReader {
                     if let Some(f) = &me.on_event { f(); }
                     return Poll::Ready(Err(k.into()));
                 }
+                Some(Item::Idle) => {
+                    if let Some(f) = &me.on_event { f(); }
+                    me.parked = true;
+                    me.shared.idle_reached.notify_one();
+                    return Poll::Pending; // open and silent for good (never consumed)
+                }
                 Some(Item::Term) => {
                     me.items.pop_front();
                     me.shared.consumed.fetch_add(1, SeqCst);
@@ -252,6 +263,7 @@ pub fn walk(s: &Script, is_fatal: &dyn Fn(ErrorKind) -> bool) -> Walk {
                 Some(Flat::B(b)) => { acc.push(*b); *pos += 1; }
                 Some(Flat::F(k)) => { *pos += 1; return R::Err(*k); }
                 Some(Flat::T) => { *pos += 1; return R::Stop; }
+                Some(Flat::I) => return R::Stop,
             }
         }
         R::Ok(acc)
@@ -298,6 +310,14 @@ pub fn install_panic_recorder() {
 pub fn take_panic(task: tokio::task::Id) -> String {
     let mut g = PANICS.lock().unwrap_or_else(|e| e.into_inner());
     g.get_or_insert_with(HashMap::new).remove(&format!("task{}", task)).unwrap_or_default()
+}
+/// Any recorded panic (for engines that run one case at a time); clears the record.
+pub fn take_any_panic() -> String {
+    let mut g = PANICS.lock().unwrap_or_else(|e| e.into_inner());
+    let m = g.get_or_insert_with(HashMap::new);
+    let v = m.values().next().cloned().unwrap_or_default();
+    m.clear();
+    v
 }
 /// `src/units/bmp_tcp_in/io.rs:79: range start index 5 out of range …` → `bmp_tcp_in/io.rs`
 pub fn panic_file(site: &str) -> String {
